@@ -113,8 +113,16 @@ def install(E, tty=(1, 0, 1), stdin_data=None):
                 c0 = 0x61
             if c0 != 45 or (not is_sym(c1) and c1 == 0):
                 g['nonopts'] = g['nonopts'] + [i]; g['next'] = i + 1; continue
-            s = cstr(p)
-            if s is None: raise Unsupported('symbolic option text')
+            chars = libc.cchars(E, st, p)
+            # the option name must be concrete; its attached value may be symbolic
+            if is_sym(chars[1]): raise Unsupported('symbolic option letter')
+            if chars[1] == 45:
+                j = 2
+                while j < len(chars) and not is_sym(chars[j]) and chars[j] != 61: j += 1
+                if j < len(chars) and is_sym(chars[j]): raise Unsupported('symbolic character inside a long option name')
+                s = bytes(chars[:j]) + (b'=' + b'?' * (len(chars) - j - 1) if j < len(chars) else b'')
+            else:
+                s = bytes(chars[:2]) + b'?' * (len(chars) - 2)
             g['next'] = i + 1
             if s == b'--': return finish()
             E.store(st, optarg_a, 8, 0)
